@@ -446,3 +446,26 @@ def qualifier_order_laws(k1: int, a1: int, b1: int, k2: int, a2: int, b2: int, k
     if (xy == 0) != same or sgn(xy) != -sgn(yx) or observation_expression_cmp(x, x) != 0:
         return False
     return not (xy <= 0 and yz <= 0) or xz <= 0
+
+
+# ---- thorough: 4-atom comparison shapes
+COMP_SHAPES4 = [
+    lambda a, b, c, d: AndBooleanExpression([P_(OrBooleanExpression([a, b])), P_(OrBooleanExpression([c, d]))]),
+    lambda a, b, c, d: AndBooleanExpression([a, P_(OrBooleanExpression([b, P_(AndBooleanExpression([c, d]))]))]),
+    lambda a, b, c, d: OrBooleanExpression([P_(AndBooleanExpression([a, b])), P_(AndBooleanExpression([c, d]))]),
+    lambda a, b, c, d: OrBooleanExpression([a, P_(AndBooleanExpression([b, P_(OrBooleanExpression([c, d]))]))]),
+    lambda a, b, c, d: OrBooleanExpression([P_(AndBooleanExpression([a, b])), P_(AndBooleanExpression([a, b, c])), d]),     # absorption inside OR
+    lambda a, b, c, d: AndBooleanExpression([P_(OrBooleanExpression([a, b])), P_(OrBooleanExpression([b, a])), c, d]),       # dedupe of equal ORs
+]
+NCS4 = len(COMP_SHAPES4)
+
+
+def comp_norm_sound4(c1: int, c2: int, c3: int, c4: int, n1: bool, n2: bool, n3: bool, n4: bool, v: int) -> bool:
+    """
+    post: _
+    """
+    mk = lambda: COMP_SHAPES4[PARTNO % NCS4](atom(c1, n1), atom(c2, n2), atom(c3, n3), atom(c4, n4, ">"))   # noqa: E731
+    before = ev(mk(), v)
+    out, _ = comp_normalizer().transform(mk())
+    V.reached()
+    return ev(out, v) == before
